@@ -1,9 +1,15 @@
 -- REGENERATED from /repo by tools/extract on every run. Do not edit.
 namespace CaddyModel.Gen
 
-/-- the `os.*` calls of the autosave block of `unsyncedDecodeAndRun` (caddy.go), in source order,
-    with their identifier arguments -/
-def autosaveOps : List String := ["MkdirAll(dir)", "WriteFile(tmpPath,cfgJSON)", "Rename(tmpPath,ConfigAutosavePath)"]
+/-- the `os.*` calls of the autosave part of `unsyncedDecodeAndRun` (caddy.go; helpers of the same file
+    inlined), in source order -/
+def autosaveOps : List String := ["MkdirAll", "WriteFile", "Rename"]
+
+/-- some `os.WriteFile(t, …)` with `t = ConfigAutosavePath + <suffix>` is followed by `os.Rename(t, ConfigAutosavePath)` -/
+def autosaveWritesTempThenRenames : Bool := true
+
+/-- no call creates or writes `ConfigAutosavePath` itself in place -/
+def autosaveNeverWritesInPlace : Bool := true
 
 /-- the file is written only after the old config was stopped (i.e. after the swap) -/
 def autosaveAfterSwap : Bool := true
